@@ -86,7 +86,7 @@ def c_overlap(ctx, args):
             got = 'raised ' + type(e).__name__
     if t[1] != 0:
         return None if got == 'NotImplementedError' else {'kind': 'oracle', 'where': be + ':expect(state) on mixed receiver', 'observed': got, 'expected': 'NotImplementedError'}
-    if ctx.model is not None:
+    if ctx.model is not None and not ctx.search:
         mt, zero, h = ctx.model.call('projection_trace', [t[0], 0], u[0][u[1]:n])
         mwant = 0.0 if zero else 2.0 ** (-h - u[1])
         if got != mwant:
